@@ -271,6 +271,10 @@ def make_case(rng, thorough):
     r = rng.random()
     if r < 0.08:
         return N.levelling(rng), None, "level", False
+    if r < 0.20:
+        B = N.trilateration(rng)
+        if B is not None:
+            return B.net(), B, "trilat", False
     fam = rng.choice(N.FAMILIES_2D if dim == 2 else N.FAMILIES_3D)
     heights = dim == 3 and rng.random() < 0.5
     B = N.constructive(rng, dim, fam, heights=heights)
@@ -280,7 +284,10 @@ def make_case(rng, thorough):
 
 
 def tolerances(variant, heights):
-    t = 1e-6 if variant == "supplied" else 1e-5
+    # pure trilateration with approximate coordinates off by 0.1 .. 0.5 m ("trilat-perturbed"): the true coordinates are
+    # to be reproduced to 0.001 mm (every positional misclosure of the stopping test is <= 0 there: the iteration must go
+    # on on |misclosure|; one step short leaves 0.005 .. 1 mm)
+    t = 1e-6 if variant in ("supplied", "trilat-perturbed") else 1e-5
     return dict(tol_xyz=t, tol_ang=(1e-6 if variant != "supplied" else 2e-7), tol_lin=t, tol_z=(3e-4 if heights else t))
 
 
@@ -463,6 +470,8 @@ def e2e(ctx, corr, gd, ncases, wd):
         mag = rng.choice([1e-3, 1e-2, 1e-1, 1.0, 5.0])
         variants = [("supplied", N.variant_supplied(net)), (f"perturbed{mag}", N.variant_perturbed(net, rng, mag)),
                     ("omitted", N.variant_omitted(net))]
+        if fam == "trilat":
+            variants.append(("trilat-perturbed", N.variant_trilat_perturbed(net, rng)))
         if B is not None:
             N.add_redundant(B, rng.randint(1, 3))
             variants.append(("omitted+more", N.variant_omitted(B.net())))
@@ -582,6 +591,38 @@ def inter_superset(impl, model):
     return True
 
 
+def inter_insertion_stops(impl, model):
+    """intersection stream: solve_insertion (no model) publishes a point the model does not, `missing_xy_` becomes empty
+    and AcordIntersection::execute returns (`completed 1`) before a turn in which the model - still missing that point -
+    computes, as a by-product, points that are NOT in `missing_xy_` (ids without an entry in the point list).  Everything
+    both sides publish must agree."""
+    if len(impl) != len(model):
+        return False
+    extra = False
+    for a, b in zip(impl, model):
+        ta, tb = a.split(), b.split()
+        if not ta or not tb or ta[0] != tb[0]:
+            return False
+        if ta[0] == "pt":
+            if ta[1] != tb[1] or ta[5:7] != tb[5:7]:
+                return False
+            if ta[2] == "1" and tb[2] == "1":
+                if not lines_equal(" ".join(ta[:5]), " ".join(tb[:5]), rtol=1e-9, atol=1e-7):
+                    return False
+            elif ta[2] == "1":
+                extra = True                          # implementation only: solve_insertion
+            elif tb[2] == "1":
+                if ta[7] != "0" or tb[7] != "0":      # model only: allowed for a point that was never missing
+                    return False
+        elif ta[0] == "ori":
+            if ta[2] == "1" and tb[2] == "1" and not lines_equal(a, b, rtol=1e-9, atol=1e-9):
+                return False
+        elif ta[0] == "completed":
+            if ta[1] != "1":
+                return False
+    return extra
+
+
 def strip_temp(line):
     """the op without the observations that only the temporary stand-point of AcordIntersection::execute uses
     (azimuths, slope distances, zenith angles), one execute() call"""
@@ -618,6 +659,31 @@ def inserted_first(exe, drv, line, impl, model):
         if ta[2] != "1" or pid not in pi or pid not in pm:
             return False
         if pm[pid][2] == "1" or pi[pid][2:5] != ta[2:5]:
+            return False
+        seen = True
+    return seen
+
+
+def inserted_before_model(drv, line, impl, model):
+    """a disagreement of an intersection case is explained by the unmodelled solve_insertion if every point on which the
+    two answers differ is published by the implementation while the model's FIRST `approxy_.calculation()` (limit 0.15)
+    does not solve it: computational_loop then calls solve_insertion before the model - which goes on to the turns with
+    the temporary stand-point and the relaxed limit - publishes its own value (seen on inconsistent data with an inner
+    angle between the two limits)"""
+    if len(impl) != len(model):
+        return False
+    t = line.split()
+    (rf, _) = run_cases(drv, [[" ".join([t[0], "intersection-first"] + t[2:])]])
+    pf = {l.split()[1]: l.split() for l in rf[0] if l.startswith("pt ")}
+    seen = False
+    for a, b in zip(impl, model):
+        ta, tb = a.split(), b.split()
+        if ta[:1] != tb[:1]:
+            return False
+        if ta[0] != "pt" or lines_equal(a, b, rtol=1e-9, atol=1e-7):
+            continue
+        pid = ta[1]
+        if ta[2] != "1" or pid not in pf or pf[pid][2] == "1":
             return False
         seen = True
     return seen
@@ -672,7 +738,14 @@ def acord_stream(ctx, corr, exe, drv, n):
             if not ok and not why and inserted_first(exe, drv, c[0], impl[i], model[i]):
                 corr.count("acord_intersection_insertion_first")
                 ok = True
-            if why and m.get("truth") and A.check(m, model[i]) is None and inter_superset(impl[i], model[i]):
+            if not ok and not why and inter_insertion_stops(impl[i], model[i]):
+                corr.count("acord_intersection_insertion_stops")
+                ok = True
+            if not ok and not why and inserted_before_model(drv, c[0], impl[i], model[i]):
+                corr.count("acord_intersection_insertion_before")
+                ok = True
+            if why and m.get("truth") and A.check(m, model[i]) is None and \
+                    (inter_superset(impl[i], model[i]) or inter_insertion_stops(impl[i], model[i])):
                 # exact data, the model (everything but solve_insertion) publishes true points only and the
                 # implementation a wrong one: finding C06-F21 (solve_insertion works in a local frame with orientations
                 # and distances of the global one).  Reported as a failure once the finding is registered; until then
@@ -691,6 +764,7 @@ def acord_stream(ctx, corr, exe, drv, n):
                       "Acord" + m["alg"].capitalize() + "::execute" + (" / ApproximateCoordinates::solve_insertion" if finding == "C06-F21" else ""))
     corr.count("acord_cases", len(cases))
     need = ["acord_azimuth_known-first", "acord_azimuth_known-second", "acord_hdiff_from-known", "acord_hdiff_to-known",
+            "acord_hdiff_late-first-height",
             "acord_vector_from-known", "acord_vector_to-known", "acord_zderived_station-known", "acord_zderived_target-known"]
     need += ["acord_intersection_" + k for k in ("dirdir", "dirdist", "dist3", "resect", "angles", "outer", "az", "azrev",
                                                  "sdza", "sdz", "dirang")]
@@ -698,9 +772,142 @@ def acord_stream(ctx, corr, exe, drv, n):
     if thin and n >= 1000:
         corr.inconclusive.append("acord stream: too few cases for branch(es) " + ", ".join(thin))
     ni = corr.stats.get("acord_intersection", 0)
-    nins = sum(corr.stats.get("acord_intersection_insertion_" + k, 0) for k in ("further", "wrong", "first"))
+    nins = sum(corr.stats.get("acord_intersection_insertion_" + k, 0) for k in ("further", "wrong", "first", "stops", "before"))
     if ni >= 100 and nins > 0.1 * ni:
         corr.inconclusive.append(f"acord stream: solve_insertion (not modelled) decided {nins} of {ni} intersection cases")
+
+
+def a2_points(lines):
+    return {l.split()[1]: l.split() for l in lines if l.startswith("pt ")}
+
+
+def a2_further(impl, model):
+    """acord2 stream: everything the model publishes is published identically by the implementation, which publishes at
+    least one coordinate group more (ApproximateCoordinates::solve_insertion has no model)"""
+    pi, pm = a2_points(impl), a2_points(model)
+    if list(pi) != list(pm):
+        return False
+    more = False
+    for k, tb in pm.items():
+        ta = pi[k]
+        for flag, vals in ((2, (3, 4)), (5, (6,))):
+            if tb[flag] == "1":
+                if ta[flag] != "1" or not all(tok_equal(ta[j], tb[j], rtol=1e-9, atol=1e-7) for j in vals):
+                    return False
+            elif ta[flag] == "1":
+                more = True
+    return more
+
+
+def a2_wrong(meta, lines, tol=1e-6):
+    """[(id, 'xy' | 'z')] published coordinate groups that are not the true ones (exact data)"""
+    out = []
+    for k, t in a2_points(lines).items():
+        tr = meta["truth"][k]
+        if t[2] == "1" and (abs(hex2float(t[3]) - tr[0]) > tol or abs(hex2float(t[4]) - tr[1]) > tol):
+            out.append((k, "xy"))
+        if t[5] == "1" and abs(hex2float(t[6]) - tr[2]) > tol:
+            out.append((k, "z"))
+    return out
+
+
+def a2_insertion_acted(impl, model, by):
+    """solve_insertion demonstrably acted: AcordIntersection::execute gave a point an xy that the model (everything of
+    AcordIntersection but solve_insertion) does not publish, or publishes with another value"""
+    pi, pm = a2_points(impl), a2_points(model)
+    if list(pi) != list(pm):
+        return False
+    for k, ta in pi.items():
+        tb = pm[k]
+        if ta[2] == "1" and by.get(k) == "AcordIntersection" and \
+                (tb[2] != "1" or not all(tok_equal(ta[j], tb[j], rtol=1e-9, atol=1e-7) for j in (3, 4))):
+            return True
+    return False
+
+
+def acord2_stream(ctx, corr, exe, drv, n):
+    """the REAL Acord2::execute against `Acord.execute` of Gama/Model/Acord2.lean over the five modelled strategies:
+    sizes of the missing sets at the start of every turn of the do-while, number of turns, every point.  Cases in which
+    a strategy without a model did something (`acted`: AcordPolar, AcordTraverse, AcordWeakChecks) or in which the
+    implementation got further than the model (solve_insertion) are outside the model: counted, oracle only."""
+    rng = ctx.rng
+    cases, meta = [], []
+    corpus = ctx.verif / "corpus" / "C06"
+    for f in sorted(corpus.glob("acord2-*.txt")) if corpus.exists() else []:
+        truth = None
+        for l in f.read_text().splitlines():
+            if l.startswith("#truth "):
+                truth = {k: tuple(v) for k, v in json.loads(l[7:]).items()}
+            elif l.strip() and not l.startswith("#"):
+                cases.append([l.strip()])
+                meta.append(dict(alg="acord2", consistent=truth is not None, truth=truth, branches=set(), corpus=f.name))
+    for _ in range(n):
+        line, m = A.gen_acord2(rng)
+        cases.append([line]); meta.append(m)
+    impl, crashes = run_cases(exe, cases)
+    model, _ = run_cases(drv, cases)
+    failed = 0
+    for i, c in enumerate(cases):
+        m = meta[i]
+        if i in crashes:
+            corr.case(key=None)
+            corr.fail("acord2 harness crashed (sanitizer)", {"stream": "acord2", "ops": c}, "Acord2::execute", crashes[i][1])
+            continue
+        acted = [l.split()[1] for l in impl[i] if l.startswith("acted ")]
+        body = [l for l in impl[i] if not l.startswith(("acted ", "oriset ", "by "))]
+        by = {l.split()[1]: l.split()[2] for l in impl[i] if l.startswith("by ")}
+        rounds = next((int(l.split()[1]) for l in body if l.startswith("rounds ")), -1)
+        computed = sum(1 for l in body if l.startswith("pt ") and (l.split()[2] == "1" or l.split()[5] == "1"))
+        corr.case(key=c[0] if computed and not acted else None,
+                  sample={"op": c[0][:160], "impl": body[:3]} if i % 400 == 0 else None)
+        corr.count("acord2_cases")
+        # the oracle applies where the model tells whose answer it is (an unclassifiable solve_insertion answer behind an
+        # unmodelled strategy is left to the end-to-end stream)
+        why = A.check(m, body) if m.get("truth") and not acted else None
+        finding = None
+        if acted:
+            for a in acted:
+                corr.count("acord2_outside_model_" + a)
+            corr.count("acord2_outside_model")
+        else:
+            corr.count(f"acord2_rounds_{min(rounds, 4)}{'+' if rounds >= 4 else ''}")
+            for b in m["branches"]:
+                corr.count("acord2_stage_" + b)
+            if any(l.startswith("oriset ") and l != "oriset 0" for l in impl[i]):
+                corr.count("acord2_polar_oriented_a_standpoint")
+            ok = len(body) == len(model[i]) and all(lines_equal(a, b, rtol=1e-9, atol=1e-7) for a, b in zip(body, model[i]))
+            if not ok and a2_insertion_acted(body, model[i], by):
+                # from the point solve_insertion publishes on, the two runs need not agree any more
+                corr.count("acord2_outside_model_solve_insertion")
+                corr.count("acord2_outside_model")
+                ok = True
+                wrong = a2_wrong(m, body) if m.get("truth") else []
+                if why and A.check(m, model[i]) is None and \
+                        any(w == "xy" and by.get(k) == "AcordIntersection" for k, w in wrong):
+                    # exact data, the model publishes true points only, AcordIntersection a wrong one: finding C06-F21
+                    finding = "C06-F21"
+                    corr.count("acord2_insertion_wrong")
+                    if not f21_registered(ctx):
+                        why = None
+            elif ok:
+                corr.count("acord2_compared")
+            if not ok:
+                corr.disagree("acord2", c, body, model[i])
+        if why and failed < 5:
+            failed += 1
+            corr.fail("Acord2::execute publishes a coordinate that is not the true one: " + why,
+                      {"stream": "acord2", "ops": c, "truth": m["truth"], "finding": finding},
+                      "Acord2::execute" + (" / ApproximateCoordinates::solve_insertion" if finding == "C06-F21" else ""))
+    tot = corr.stats.get("acord2_cases", 0)
+    out = corr.stats.get("acord2_outside_model", 0)
+    if tot >= 300:
+        if out > 0.3 * tot:
+            corr.inconclusive.append(f"acord2 stream: {out} of {tot} cases needed a strategy without a model")
+        thin = [k for k in ("acord2_rounds_3", "acord2_stage_hd-late", "acord2_stage_az", "acord2_stage_vec", "acord2_stage_resect",
+                            "acord2_stage_dirdir", "acord2_stage_dist3", "acord2_stage_zd-target", "acord2_stage_zd-station")
+                if corr.stats.get(k, 0) < 10]
+        if thin:
+            corr.inconclusive.append("acord2 stream: too few compared cases for " + ", ".join(thin))
 
 
 def correspond(ctx, corr):
@@ -760,6 +967,8 @@ def correspond(ctx, corr):
     corr.count("prim_cases", len(cases))
     # ---- (a') one step of one Acord2 strategy on a small in-memory network
     acord_stream(ctx, corr, exe, drv, ctx.size(2400, 60000))
+    # ---- (a3) the whole of Acord2::execute against the scheduling model over the five modelled strategies
+    acord2_stream(ctx, corr, exe, drv, ctx.size(500, 12000))
     # ---- (b) one adjustment step through LocalNetwork
     wd = Path(tempfile.mkdtemp(prefix="c06-"))
     try:
@@ -770,6 +979,14 @@ def correspond(ctx, corr):
             f = wd / f"n{k}.gkf"
             f.write_text(G.to_gkf(v))
             ncases.append([f"net {f}"]); files.append(f)
+        # pure trilateration, approximate coordinates off by 0.1 .. 0.5 m: every misclosure of the stopping test is <= 0
+        for k in range(ctx.size(12, 150)):
+            B = N.trilateration(rng)
+            if B is None:
+                continue
+            f = wd / f"t{k}.gkf"
+            f.write_text(G.to_gkf(N.variant_trilat_perturbed(B.net(), rng)))
+            ncases.append([f"net {f}"]); files.append(f)
         nimpl, ncr = run_cases(exe, ncases)
         mcases, mexp = [], []
         for k, out in enumerate(nimpl):
@@ -779,6 +996,16 @@ def correspond(ctx, corr):
                 continue
             ops, exp = net_ops([l for l in out if l and not l.startswith(("throw", "<"))])
             mcases.append(ops); mexp.append(exp)
+            for o, e in zip(ops, exp):
+                if o.startswith("testlin "):
+                    pols = [hex2float(x) for x in o.split()[2:]]
+                    pos = max([x for x in pols if x > 0] + [0.0])
+                    neg = max([-x for x in pols if x < 0] + [0.0])
+                    corr.count("net_testlin_flag_" + e.split()[1])
+                    if pols and pos == 0.0 and neg > 0:
+                        corr.count("net_testlin_all_misclosures_nonpositive")
+                    if neg >= 0.0005 > pos:
+                        corr.count("net_testlin_decided_by_negative_misclosure")
         mout, _ = run_cases(drv, mcases)
         for k, ops in enumerate(mcases):
             corr.case(key="\n".join(ops) if ops else None)
@@ -806,6 +1033,8 @@ def correspond(ctx, corr):
         e2e(ctx, corr, gd, ctx.size(45, 400), wd)
     finally:
         shutil.rmtree(wd, ignore_errors=True)
+    if corr.stats.get("net_testlin_decided_by_negative_misclosure", 0) < 5:
+        corr.inconclusive.append("net stream: fewer than 5 stopping tests decided by a negative misclosure alone")
     if corr.stats.get("prim_solutions_2", 0) < 20 or corr.stats.get("prim_small_angle", 0) < 5:
         corr.inconclusive.append("too few two-solution / small-angle primitive cases")
 
@@ -841,7 +1070,7 @@ def classify(ctx, failure):
         # a refusal is the known finding F19 ONLY when the construction step Acord2 did not perform is one of the
         # listed, reproducer-backed unimplemented step kinds; anything else is a violation (a strategy regressed)
         return "C06-F19" if step_kind_known(r.get("step", "")) else None
-    if r.get("stream") == "acord":
+    if r.get("stream") in ("acord", "acord2"):
         return r.get("finding")
     return {"C06-stale-x": "C06-refine-stale-unknowns", "C06-acord-copyback": "C06-acord-copyback",
             "C06-azimuth-from-unknown": "C06-F20"}.get(sig)
@@ -866,7 +1095,7 @@ def replay(ctx, payload):
             return 1 if bad else 0
         finally:
             shutil.rmtree(wd, ignore_errors=True)
-    if inp.get("stream") in ("prim", "acord"):
+    if inp.get("stream") in ("prim", "acord", "acord2"):
         exe = build_harness(ctx)
         impl, _ = run_cases(exe, [inp["ops"]])
         model, _ = run_cases(ctx.driver("drv_cogo"), [inp["ops"]])
